@@ -456,6 +456,7 @@ package control
 //@   at call appendRule#1 assert calls("builtin:append") == 1 ==> a2.lpmIndex == len(b.simulatedLpmTries) - 1 && b.simulatedLpmTries[a2.lpmIndex].$base == values.$base && len(b.simulatedLpmTries[a2.lpmIndex]) == len(values)
 //@   at call appendRule#1 assert calls("builtin:append") == 0 ==> has(b.lpmDedup, hash) && a2.lpmIndex == b.lpmDedup[hash].index
 //@   at call appendRule#1 assert calls("builtin:append") <= 1
+//@   at call outboundToId#1 assert has(b.lpmDedup, hash) && b.lpmDedup[hash].index == lpmTrieIndex && (calls("builtin:append") == 1 ==> lpmTrieIndex == len(b.simulatedLpmTries) - 1)
 //@   dyncalls noeffect
 //@   modifies *
 //@ func (*RoutingMatcherBuilder).addSourceIp
@@ -465,6 +466,9 @@ package control
 //@   at call appendRule#1 assert calls("builtin:append") == 1 ==> a2.lpmIndex == len(b.simulatedLpmTries) - 1 && b.simulatedLpmTries[a2.lpmIndex].$base == values.$base && len(b.simulatedLpmTries[a2.lpmIndex]) == len(values)
 //@   at call appendRule#1 assert calls("builtin:append") == 0 ==> has(b.lpmDedup, hash) && a2.lpmIndex == b.lpmDedup[hash].index
 //@   at call appendRule#1 assert calls("builtin:append") <= 1
+// ... and the dedup table remembers every set under the position it was stored at (a later rule with the
+// identical set must resolve to THAT set)
+//@   at call outboundToId#1 assert has(b.lpmDedup, hash) && b.lpmDedup[hash].index == lpmTrieIndex && (calls("builtin:append") == 1 ==> lpmTrieIndex == len(b.simulatedLpmTries) - 1)
 //@   dyncalls noeffect
 //@   modifies *
 //@ func (*RoutingMatcherBuilder).addPort
